@@ -398,6 +398,12 @@ LegacyObs(doc, req, nonEmptyVars, keepSlash, methodGuard) ==
                    THEN (IF req.m \in Std9 \/ methodGuard THEN MethodNotAllowed ELSE [k |-> "panic"])
                    ELSE NotFound
 
+(* the models of the code as it is now: the switches of repaired defects are on                 *)
+(*   legacy methodGuard (F-C09-3, unknown-method panic) and mux localServers (F-C09-5, path-level *)
+(*   servers leak) were repaired by fix: commits in /repo                                         *)
+CurLegacyObs(doc, req) == LegacyObs(doc, req, FALSE, FALSE, TRUE)
+CurMuxObs(doc, req) == MuxObs(doc, req, FALSE, TRUE)
+
 (* what of an observation the L2 models predict (the rest is left to L1) *)
 Gist(o) == IF o.k = "route" THEN <<"route", o.path>> ELSE IF o.k = "rerr" THEN <<"rerr", o.kind>> ELSE <<o.k>>
 =============================================================================
